@@ -31,10 +31,16 @@ type mainRecord struct {{
 	Count int
 }}
 
+// reaches reflection only through mid.Wrap -> leaf.Peek, and only once leaf.Peek looks at its argument
+type hiddenRecord struct {{
+	Alpha int
+	Beta  string
+}}
+
 func main() {{
 	r := mainRecord{{"main-record", {variant}}}
 	fmt.Printf("%+v\\n", r)
-	fmt.Println(mid.Describe(3), mid.Total(4), version, extra())
+	fmt.Println(mid.Describe(3), mid.Total(4), version, extra(), mid.Wrap(hiddenRecord{{1, "b"}}))
 	if len(os.Args) > 5 {{
 		os.Exit(3)
 	}}
@@ -76,6 +82,9 @@ func Describe(n int) string {
 
 func Total(n int) int { return leaf.Sum(leaf.Make(n)) + leaf.AsmAdd(n, 2) + absDiff(n, 7) }
 
+//go:noinline
+func Wrap(v any) string { return leaf.Peek(v) }
+
 // Only rewritten when GARBLE_EXPERIMENTAL_CONTROLFLOW=1 (loop-free on purpose).
 //
 //garble:controlflow flatten_passes=1 junk_jumps=0 block_splits=0
@@ -103,6 +112,13 @@ func Make(n int) []Item {
 		items = append(items, Item{Label: reflect.TypeOf(Item{}).Name(), Value: i * i})
 	}
 	return items
+}
+
+// Peek ignores its argument until the "body" edit of the C06 histories makes it reflect on it.
+//
+//go:noinline
+func Peek(v any) string {
+	return "-" // PEEK-BODY
 }
 
 func Sum(items []Item) int {
@@ -226,8 +242,10 @@ func main() {
 """
 
 
-def set_linker_state(gcache: Path, cur_tool: Path, stamp: str, binst: str):
-    """Concretise the abstract <<stamp, bin>> state of Linker.tla in GARBLE_CACHE/tool."""
+def set_linker_state(gcache: Path, cur_tool: Path, stamp: str, binst: str, tmpst: str = "none"):
+    """Concretise the abstract <<stamp, bin, tmp>> state of Linker.tla in GARBLE_CACHE/tool.
+    "partial" keeps the head of the file (what an interrupted copy leaves), so the build ID
+    cmd/go looks for is still there."""
     tool = gcache / "tool"
     rmtree(tool)
     tool.mkdir(parents=True)
@@ -242,6 +260,15 @@ def set_linker_state(gcache: Path, cur_tool: Path, stamp: str, binst: str):
         link.write_bytes((cur_tool / "old-linker-standin").read_bytes())
     if binst != "none":
         link.chmod(0o755)
+    tmpf = tool / "link.tmp"
+    if tmpst == "cur":
+        tmpf.write_bytes(cur_link)
+    elif tmpst == "partial":
+        tmpf.write_bytes(cur_link[: len(cur_link) // 2])
+    elif tmpst == "old":
+        tmpf.write_bytes((cur_tool / "old-linker-standin").read_bytes())
+    if tmpst != "none":
+        tmpf.chmod(0o755)
     if stamp == "cur":
         ver.write_bytes(cur_ver)
     elif stamp == "partial":
@@ -275,7 +302,7 @@ def observe_linker_state(gcache: Path, cur_tool: Path):
 # --------------------------------------------------------------------------- linker trace projection
 
 LINK_EVENTS = {"link-lock-acquired", "link-version-checked", "link-reuse", "link-build-start", "link-build-done",
-               "link-stamp-written", "link-unlock"}
+               "link-renamed", "link-stamp-written", "link-unlock"}
 
 
 def linker_trace(events):
